@@ -271,9 +271,11 @@ func (c *Conn) OpenUpstream(ctx context.Context, sessionID string, opts ...Upstr
 	upconf.SessionID = sessionID
 
 	var resp *message.UpstreamOpenResponse
+	var epoch uint64
 	err := c.send(ctx, func(ctx context.Context) error {
 		c.wireConnMu.Lock()
 		defer c.wireConnMu.Unlock()
+		epoch = c.state.Epoch()
 		r, err := c.wireConn.SendUpstreamOpenRequest(ctx, &message.UpstreamOpenRequest{
 			SessionID:      upconf.SessionID,
 			AckInterval:    *upconf.AckInterval,
@@ -338,6 +340,7 @@ func (c *Conn) OpenUpstream(ctx context.Context, sessionID string, opts ...Upstr
 		eventDispatcher:      newEventDispatcher(),
 
 		connState:               c.state,
+		connEpoch:               epoch,
 		explicitlyFlushCh:       make(chan (<-chan struct{})),
 		explicitlyFlushResultCh: make(chan error),
 		Config:                  upconf,
@@ -380,6 +383,9 @@ func (c *Conn) OpenUpstream(ctx context.Context, sessionID string, opts ...Upstr
 					return
 				}
 
+				u.mu.Lock()
+				u.connEpoch = c.state.Epoch() // read before c.wireConn: a later outage must be noticed
+				u.mu.Unlock()
 				if err := u.resume(c.wireConn); err != nil {
 					u.logger.Errorf(ctx, "failed to resume upstream: %+v", err)
 					return
@@ -422,8 +428,10 @@ func (c *Conn) OpenDownstream(ctx context.Context, filters []*message.Downstream
 	}
 	alias := c.downstreamIDGenerator.Next()
 
+	var epoch uint64
 	err = c.send(ctx, func(ctx context.Context) error {
 		c.wireConnMu.Lock()
+		epoch = c.state.Epoch()
 		dpsCh, err = c.wireConn.SubscribeDownstreamChunk(ctx, alias, downconf.QoS)
 		c.wireConnMu.Unlock()
 		if err != nil {
@@ -501,6 +509,7 @@ func (c *Conn) OpenDownstream(ctx context.Context, filters []*message.Downstream
 		logger: c.logger,
 
 		connStatus: c.state,
+		connEpoch:  epoch,
 		state:      newStreamState(),
 		Config:     downconf,
 	}
@@ -539,6 +548,9 @@ func (c *Conn) OpenDownstream(ctx context.Context, filters []*message.Downstream
 					return
 				}
 
+				down.mu.Lock()
+				down.connEpoch = c.state.Epoch() // read before c.wireConn: a later outage must be noticed
+				down.mu.Unlock()
 				if err := down.resume(c); err != nil {
 					down.logger.Errorf(ctx, "Failed to resume downstream: %+v", err)
 					return
